@@ -41,6 +41,7 @@ CHECK_DEADLOCK FALSE
 CFG_WHILE = '''CONSTANTS
   MaxN = 6
   Kinds = {"lt", "notgt", "or", "andnot", "false"}
+  Bodies = {"plain", "ifthenelse", "nested"}
 SPECIFICATION Spec
 INVARIANT LoopCount
 INVARIANT Emit
@@ -214,11 +215,11 @@ def run(chk):
         test = {'lt': r'\value{wc}<%d' % n, 'notgt': r'\not\(\value{wc}>%d\) \and \equal{a}{a}' % (n - 1),
                 'or': r'\value{wc}<%d \or \equal{a}{b}' % n, 'andnot': r'\value{wc} < %d \and \not \value{wc} = %d' % (n, n),
                 'false': r'\equal{a}{b}'}[kind]
-        got = whiledo_count(test)
-        chk.case(['whiledo', kind, n], True, {'whiledo': test, 'iterations': b['iterations']} if n == 3 else None)
+        got = whiledo_count(test, b['body'])
+        chk.case(['whiledo', kind, n, b['body']], True, {'whiledo': test, 'iterations': b['iterations']} if n == 3 else None)
         chk.traces += 1
         if got != b['iterations']:
-            chk.violation('whiledo:%s' % kind, '\\whiledo{%s}{x\\stepcounter{wc}} ran %s times, specification %d' % (test, got, b['iterations']), test)
+            chk.violation('whiledo:%s:%s' % (kind, b['body']), '\\whiledo{%s}{x\\stepcounter{wc}...} (body kind %s) ran %s times, specification %d' % (test, b['body'], got, b['iterations']), test)
 
     # code -> spec: random deeper trees, validated by TLC on the observed value
     rnd = random.Random(seed + 1)
@@ -254,12 +255,17 @@ def run(chk):
                       'a recorded evaluation disagrees with the machine: %s\n%s' % (rt.violated, rt.trace_text[:2500]))
 
 
-def whiledo_count(test):
+BODIES = {'plain': r'x\stepcounter{wc}',
+          'ifthenelse': r'x\ifthenelse{\(\isodd{\value{wc}}\)}{o}{e}\stepcounter{wc}',
+          'nested': r'x\setcounter{wd}{0}\whiledo{\(\value{wd}<2\)}{i\stepcounter{wd}}\stepcounter{wc}'}
+
+
+def whiledo_count(test, body='plain'):
     from plasTeX.TeX import TeX
     from plasTeX import TeXDocument
     d = TeXDocument()
     t = TeX(d)
-    t.input(PREAMBLE + r'\setcounter{wc}{0}[\whiledo{%s}{x\stepcounter{wc}}]' % test + r'\end{document}')
+    t.input(PREAMBLE + r'\newcounter{wd}\setcounter{wc}{0}[\whiledo{%s}{%s}]' % (test, BODIES[body]) + r'\end{document}')
     try:
         t.parse()
     except Exception as ex:
